@@ -24,7 +24,7 @@ Print Assumptions C24_name_roundtrip_general.
 Theorem C24_accepted_safe : forall n,
   (valid_app n = true -> safe_elem n) /\ (valid_node n = true -> safe_elem n) /\
   (valid_entry n = true -> safe_elem n /\ no_byte underscore n).
-Proof. intro n. split; [apply valid_app_safe | split; [apply valid_node_safe | apply valid_entry_safe]]. Qed.
+Proof. exact accepted_safe_all. Qed.
 Print Assumptions C24_accepted_safe.
 
 (* etcd: for all workloads created under accepted names (distinct ids) every AddWorkload succeeds
@@ -75,7 +75,7 @@ Print Assumptions C24_deploy_status_total.
 
 Theorem C24_processing_created : forall ps, Forall good_proc ps -> NoDup (map p_ident ps) ->
   build_procs_n [] ps = (map pentry ps, map (fun _ => true) ps).
-Proof. intros ps F ND. exact (build_procs_good ps [] (Forall_nil _) F ND). Qed.
+Proof. exact processing_created. Qed.
 Print Assumptions C24_processing_created.
 
 (* WorkloadStatusStream(app, entry, node) on etcd watches exactly the status keys of the workloads
@@ -93,6 +93,14 @@ Theorem C24_prefix_iff_names : forall app entry node x,
   (has_prefix (list_key app entry node) (key_of x) = true <-> under_names app entry node x).
 Proof. exact prefix_iff_names. Qed.
 Print Assumptions C24_prefix_iff_names.
+
+(* the selection predicate of the boolean check evaluated on the implementation's answers
+   (Model.created_under, on the request strings) is the theorems' "created under those names" *)
+Theorem C24_ok_selects : forall app entry node a, a_ok a = true ->
+  (created_under app entry node a = true <->
+   under_names (s2l app) (s2l entry) (s2l node) (names_of a)).
+Proof. exact created_under_iff. Qed.
+Print Assumptions C24_ok_selects.
 
 (* the full statement is false on redis: accepted names with glob metacharacters collide *)
 Theorem C24_refuted_redis_glob :
